@@ -204,7 +204,7 @@ def eq_profiles(tier, seed):
     return out
 
 
-def run_extra(res, profiles, rules, per_count, budget, opts_list=({},)):
+def run_extra(res, profiles, rules, per_count, budget, opts_list=({},), on_timeout=None):
     t0 = time.time()
     for p in profiles:
         if time.time() - t0 > budget:
@@ -216,6 +216,8 @@ def run_extra(res, profiles, rules, per_count, budget, opts_list=({},)):
                     E = counted(data, rule, opts)
                 except Timeout:
                     res.skipped += 1
+                    if on_timeout is not None:
+                        on_timeout(data, rule, opts)
                     continue
                 except (ElectionProfileError, UsageError):
                     res.skipped += 1
@@ -366,7 +368,7 @@ def run_corpus(res, rules, per_count):
 
 
 def run_counts(res, rules, tier, seed, per_count, with_withdrawn=True, with_undeclared=False, grid=True, max_n=None,
-               time_budget=None, mutate=None):
+               time_budget=None, mutate=None, on_timeout=None):
     "drive per_count(E, data, rule, opts, p) over the domain"
     if mutate is None:
         run_corpus(res, rules, per_count)
@@ -392,6 +394,8 @@ def run_counts(res, rules, tier, seed, per_count, with_withdrawn=True, with_unde
                     E = counted(data, rule, opts)
                 except Timeout:
                     res.skipped += 1
+                    if on_timeout is not None:
+                        on_timeout(data, rule, opts)
                     continue
                 except (ElectionProfileError, UsageError):
                     res.skipped += 1
@@ -432,7 +436,21 @@ def check_C01(res):
                     res.violation('withdrawn candidate %s has state %s / votes %s' % (c.name, c.state, c.vote), wit(data, rule, opts))
             elif c.state not in ('elected', 'defeated'):
                 res.violation('candidate %s left %s at the end of the count (%s)' % (c.name, c.state, rule), wit(data, rule, opts))
-    run_counts(res, RULES, res.tier, res.seed, per, with_undeclared=False)
+
+    def timed_out(data, rule, opts):
+        # a small count that does not finish within the watchdog under a finite-precision arithmetic does not terminate for all
+        # practical purposes (exact rationals under the Meek family are the property's own exception: never run here)
+        if opts.get('arithmetic') != 'rational':
+            res.violation('count does not finish within the %d s watchdog (%s %s)' % (5, rule, opts), wit(data, rule, opts))
+    run_counts(res, RULES, res.tier, res.seed, per, with_undeclared=False, on_timeout=timed_out)
+    # very large elections (multipliers of 10^3..10^7): where the last digit of a keep factor can stall the Meek iteration
+    rngb = random.Random(res.seed * 3 + 2)
+    big = []
+    for p0 in small_profiles('quick', res.seed + 5, False, False)[:120 if res.tier == 'quick' else 2000]:
+        q = dict(p0)
+        q['lines'] = [(m * rngb.choice([10 ** 3, 4567, 10 ** 5, 333333, 10 ** 6, 7654321]) + rngb.randint(0, 9), r) for m, r in p0['lines']]
+        big.append(q)
+    run_extra(res, big, ['meek-prf', 'meek', 'warren'], per, 10 if res.tier == 'quick' else 200, opts_list=({},), on_timeout=timed_out)
     # Minneapolis with undeclared write-ins (and write-in slots that are also withdrawn)
     run_counts(res, ['mpls'], res.tier, res.seed + 7, per, with_withdrawn=True, with_undeclared=True, grid=False,
                time_budget=8 if res.tier == 'quick' else 120)
@@ -616,7 +634,24 @@ def check_C04(res):
                         if holds and 'remaining' not in a['msg'].lower():
                             res.violation('candidate %s excluded while holding a quota (%s >= %s) (%s %s)' % (cid, v, q, rule, opts), wit(data, rule, opts))
             prev = a
+        # Meek family: after every distribution the quota is recomputed from the votes then credited to the continuing candidates
+        # (the iterate / elect snapshots carry the tallies and the quota of the same distribution)
+        if rule in MEEK_FAMILY and V.name != 'rational':
+            for a in E.erecord['actions']:
+                if 'cstate' not in a or not (a['tag'] == 'iterate' or (rule == 'meek-prf' and a['tag'] == 'elect' and
+                                                                        'remaining' not in a['msg'].lower())):
+                    continue
+                tot = sum((fr(c['vote']) for c in a['cstate'].values() if c['state'] in ('hopeful', 'elected')), Fraction(0))
+                q = fr(a['quota'])
+                want = (tot / (s + 1) // u) * u + (Fraction(0) if V.exact else u)
+                if q != want:
+                    res.violation('quota %s at an iteration snapshot, prescribed %s = credited votes %s / (seats+1) truncated%s (%s %s)'
+                                  % (q, want, tot, '' if V.exact else ' + epsilon', rule, opts), wit(data, rule, opts))
+                    break
     run_counts(res, RULES, res.tier, res.seed, per, with_withdrawn=False)
+    # ballots with equal rankings: counted by meek / warren, carried but ignored by every other rule (they must not leak into a quota)
+    run_extra(res, eq_profiles(res.tier, res.seed), ['meek', 'warren', 'meek-prf', 'wigm', 'scotland'], per,
+              8 if res.tier == 'quick' else 200, opts_list=({},))
 
 
 class Tap:
@@ -765,27 +800,7 @@ def scottish_ties_factory(res):
     return scottish_ties
 
 
-def check_C07(res):
-    scottish_ties = scottish_ties_factory(res)
-    res.rule = ('every single exclusion is of a lowest hopeful (within surplus for meek family; lowest quotient for qpq); every tie among '
-                'the lowest is logged; a record without tie actions is unchanged under every tie order (n<=4); distinct = (rule, tags)')
-
-    def batches(E, data, rule, opts):
-        "after every exclusion of a batch, the continuing and elected candidates can still fill the seats"
-        prev = None
-        for a in E.erecord['actions']:
-            if 'cstate' not in a:
-                continue
-            if prev is not None and a['tag'] == 'defeat' and any(k in a['msg'].lower() for k in ('sure loser', 'certain loser', 'batch')):
-                # (the statutory exclusion of undeclared write-ins is not a batch of sure losers: it may leave seats unfillable)
-                newly = [cid for cid, c in a['cstate'].items() if c['state'] == 'defeated' and prev['cstate'][cid]['state'] == 'hopeful']
-                left = sum(1 for c in a['cstate'].values() if c['state'] in ('hopeful', 'elected'))
-                if newly and left < E.nSeats:
-                    res.violation('exclusion of %s leaves %d continuing/elected candidates for %d seats (%s %s)' % (
-                        newly, left, E.nSeats, rule, opts), wit(data, rule, opts))
-                    return
-            prev = a
-
+def sure_losers_factory(res):
     def sure_losers(E, data, rule, opts):
         """a run of consecutive batch exclusions: the batch's combined tallies plus all untransferred surplus are below the
         lowest tally among the candidates that stay (tallies as recorded just before the batch)"""
@@ -812,12 +827,46 @@ def check_C07(res):
             surplus = sum((max(Fraction(0), fr(c['vote']) - q) for c in before.values() if c['state'] == 'elected'), Fraction(0))
             if rule in MEEK_FAMILY and acts[j - 1].get('surplus') is not None:
                 surplus = fr(a['surplus']) if a.get('surplus') is not None else surplus
+            if rule == 'mpls':
+                # 167.20: votes that could still reach a candidate include those of the undeclared write-ins being excluded in
+                # the same round (defeated already, their ballots not yet transferred)
+                und = {c.cid for c in E.C if c.isUndeclared}
+                surplus += sum((fr(before[cid]['vote']) for cid in before if cid in und and before[cid]['state'] == 'defeated'), Fraction(0))
+                stay = [cid for cid in stay if cid not in und]
+                if not stay:
+                    continue
             total = sum((fr(before[cid]['vote']) for cid in batch), Fraction(0)) + surplus
             nxt = min(fr(before[cid]['vote']) for cid in stay)
             if not total < nxt:
                 res.violation('batch %s is not a set of sure losers: their tallies plus the untransferred surplus are %s, the next candidate has %s (%s %s)'
                               % (batch, total, nxt, rule, opts), wit(data, rule, opts))
                 return
+
+    return sure_losers
+
+
+def check_C07(res):
+    scottish_ties = scottish_ties_factory(res)
+    res.rule = ('every single exclusion is of a lowest hopeful (within surplus for meek family; lowest quotient for qpq); every tie among '
+                'the lowest is logged; a record without tie actions is unchanged under every tie order (n<=4); distinct = (rule, tags)')
+
+    def batches(E, data, rule, opts):
+        "after every exclusion of a batch, the continuing and elected candidates can still fill the seats"
+        prev = None
+        for a in E.erecord['actions']:
+            if 'cstate' not in a:
+                continue
+            if prev is not None and a['tag'] == 'defeat' and any(k in a['msg'].lower() for k in ('sure loser', 'certain loser', 'batch')):
+                # (the statutory exclusion of undeclared write-ins is not a batch of sure losers: it may leave seats unfillable)
+                newly = [cid for cid, c in a['cstate'].items() if c['state'] == 'defeated' and prev['cstate'][cid]['state'] == 'hopeful']
+                left = sum(1 for c in a['cstate'].values() if c['state'] in ('hopeful', 'elected'))
+                if newly and left < E.nSeats:
+                    res.violation('exclusion of %s leaves %d continuing/elected candidates for %d seats (%s %s)' % (
+                        newly, left, E.nSeats, rule, opts), wit(data, rule, opts))
+                    return
+            prev = a
+
+    sure_losers = sure_losers_factory(res)
 
     def per(E, data, rule, opts, p, exc=None):
         if exc is None and os.environ.get('C07_SURE', '1') == '1':
